@@ -537,6 +537,7 @@ def run(ctx, rep):
     from . import c06
 
     c06.rule_iterloop(ctx, rep)  # lying iterators: the fill loop stores every item it takes, or panics
+    c06.rule_init(ctx, rep)  # what unwinding may drop: a handle typed as initialised exists only once every slot is written
     from . import c10
 
     c10.rule_thin_ctor(ctx, rep)  # a len() that changes between calls is caught by the checked thin conversion
